@@ -44,15 +44,16 @@ def judge(ctx, kind, v, opts, r, m):
 
 def run(ctx):
     n = ctx.n(1500, 40000)
-    cases = B.gen_cases(ctx, n, big=ctx.thorough)
-    models = B.model_side(cases)
-    for (kind, v), m in zip(cases, models):
-        opts = dict(wide=ctx.rng.random() < 0.3, vpstyle=ctx.rng.choice([0, 0, 1]),
-                    prov=ctx.rng.choice(A.PROVENANCES) if ctx.rng.random() < 0.2 else None, scalars=ctx.rng.choice([None, None, "np", "py"]))
-        r = B.real_side(kind, v, **opts)
-        ctx.case((kind, v), nontrivial=A.nontrivial(kind, v), sample=dict(kind=kind, v=v) if len(repr(v)) < 700 else None,
-                 tags=B.shape_tags(kind, v) + (["f64-input"] if opts["wide"] else []) + ([f"prov={opts['prov']}"] if opts["prov"] else []) + ([f"scalars={opts['scalars']}"] if opts.get("scalars") else []))
-        judge(ctx, kind, v, opts, r, m)
+    for c0 in range(0, n, 2500):
+        cases = B.gen_cases(ctx, min(2500, n - c0), big=ctx.thorough)
+        models = B.model_side(cases)
+        for (kind, v), m in zip(cases, models):
+            opts = dict(wide=ctx.rng.random() < 0.3, vpstyle=ctx.rng.choice([0, 0, 1]),
+                        prov=ctx.rng.choice(A.PROVENANCES) if ctx.rng.random() < 0.2 else None, scalars=ctx.rng.choice([None, None, "np", "py"]))
+            r = B.real_side(kind, v, **opts)
+            ctx.case((kind, v), nontrivial=A.nontrivial(kind, v), sample=dict(kind=kind, v=v) if len(repr(v)) < 700 else None,
+                     tags=B.shape_tags(kind, v) + (["f64-input"] if opts["wide"] else []) + ([f"prov={opts['prov']}"] if opts["prov"] else []) + ([f"scalars={opts['scalars']}"] if opts.get("scalars") else []))
+            judge(ctx, kind, v, opts, r, m)
     from sessions.c01 import life_cycles
     life_cycles(ctx, judge, ctx.n(350, 8000))
     deciding_component(ctx, ctx.n(200, 4000))
